@@ -61,7 +61,7 @@ CHECKS = {
    text="Exploration: variants differing in one bound field (author, round, payload entry, parent, payload/parent boundary shift, swapped round/QC round) or carrying a signature of another kind (vote<->timeout<->block) re-use the original signature and must be rejected (no vote, no store); blocks fetched from the node's helper must be byte-identical to a block it was given under that digest; every frame the node writes must decode and its own signatures must verify under the independently computed digests.",
    note="Parts (a)/(b) of the statement are pure; they are decided here only through the real node's reaction to injected variants (input generation inside a simulation), as DESIGN.md states."),
  "C14": dict(ref="5/C14", cat="fault_enumeration", tech="deterministic simulation of the real ReliableSender against the real Receiver; complete enumeration of a finite connection-fault sub-space plus seeded exploration; delivery/order/ACK-pairing/cancellation monitor",
-   text="Fault enumeration: for 1..4 messages (burst or spaced) the first connection is broken at every frame position in either direction (request lost / just received, acknowledgement lost / just received), crossed with 0..3 refused reconnections and with one cancellation at every position: 2432 cases, all executed on every run. On top, seeded exploration with up to 50 messages, several breaks, peer-down intervals, random cancellations, short/pending writes and split reads. Oracle: every kept message delivered and its handle resolved within the quiet tail, first deliveries in hand-over order, a handle resolves only with ack:<its own message> and not before the peer received it, a cancelled message is not written on connections opened after the cancellation.",
+   text="Fault enumeration: for 1..4 messages (burst or spaced) the first connection is broken at every frame position in either direction (request lost / just received, acknowledgement lost / just received), crossed with 0..3 refused reconnections and with one cancellation at every position: 3472 cases, all executed on every run. On top, seeded exploration with up to 50 messages, several breaks, peer-down intervals, random cancellations, short/pending writes and split reads. Oracle: every kept message delivered and its handle resolved within the quiet tail, first deliveries in hand-over order, a handle resolves only with ack:<its own message> and not before the peer received it, a cancelled message is not written on connections opened after the cancellation.",
    note="Beyond the enumerated sub-space this is sampling. A break loses the bytes in flight in both directions."),
  "C15": dict(ref="5/C15", tech="deterministic simulation in two builds + seeded hostile-frame injection on all three ports; process-wide panic hook and functional service probes",
    text="Exploration in both build configurations: 20-200 hostile inputs per run (random bytes, oversize and truncated frames, mutated copies of real frames, out-of-range tags, huge lengths, malformed key strings, cross-component digests of the shared store, unknown origins, absurd rounds signed by a harness-held authority, 1 MiB transactions) followed by probes of every service of every node: still commits, answers a block sync request and a batch request from its store, batches a fresh transaction; any panic inside /repo code is a violation.",
